@@ -1,5 +1,6 @@
 import Rcgen.Model.Sign
 import Rcgen.Theorems.C01
+import Rcgen.Theorems.C11
 /-
   C16 — every advertised feature combination builds and both crypto back ends agree.
   Decided by the technique: back-end agreement.  There is *one* model; the to-be-signed
@@ -68,5 +69,23 @@ theorem tbs_depends_on_digests_only (H H' : Hashes) (p : CertParams) (s : PubKey
 /-! non-vacuity -/
 example : digestFree { (default : CertParams) with serial := some [1], keyIdMethod := .preSpecified [2] }
     { dn := default, keyIdMethod := .preSpecified [3], keyUsages := [], key := default } = true := by decide
+
+/-- **a key exported by one back end loads in the other**: for every pair of back ends and every
+    key type both hold, the document the first writes for a generated key — and the document it
+    hands out for a key it *loaded* from any encoding — is auto-detected by the second as a key of
+    the same type with the same algorithm, and loads there under every algorithm of that type it
+    is told (the parsers' acceptance table is the assumption of Model/Keys.lean, validated row
+    by row against both back ends on every run) -/
+theorem exported_key_loads_in_other_backend :
+    C11.allBackends.all (fun b => C11.allBackends.all (fun b' => C11.allKeyTypes.all (fun k =>
+      !(supports b k && supports b' k) ||
+      (let d : KeyDoc := ⟨exportFormat b k, k⟩
+       autodetect b' d == .ok k.defaultAlg &&
+       (publicAlgs b').all (fun a => !a.fits k || loadDerWith b' a d == .ok a) &&
+       C11.allFormats.all (fun f =>
+         let src : KeyDoc := ⟨f, k⟩
+         match autodetect b src with
+         | .ok _ => autodetect b' ⟨exportOfLoaded b src, k⟩ == .ok k.defaultAlg
+         | _ => true))))) = true := by decide
 
 end Rcgen.Theorems.C16
